@@ -48,6 +48,7 @@ type Config struct {
 	Saga *SagaCfg   `json:"saga,omitempty"`
 	Num  *NumericCfg `json:"numeric,omitempty"`
 	Comp *CompCfg   `json:"comp,omitempty"`
+	ErrFlow *ErrFlowCfg `json:"errflow,omitempty"`
 }
 
 func flat(xs ...interface{}) []float64 {
@@ -98,6 +99,13 @@ func (c *Config) run(pc PoolCfg) (obs []float64, errd bool, panicked string) {
 	case "numeric":
 		o, pn := runNumeric(c.Num, -1, pc)
 		return o.Par, o.Err, pn
+	case "errflow":
+		e, fired, pn, _ := runErrFlowStable(c.ErrFlow, pc)
+		f := 0.0
+		if fired {
+			f = 1
+		}
+		return []float64{f}, e, pn
 	case "comp":
 		// batch evaluation of composite emissions; the sequential reference (pool of one thread) is the table
 		// obtained by direct LogPdf calls on the original distributions
@@ -109,6 +117,16 @@ func (c *Config) run(pc PoolCfg) (obs []float64, errd bool, panicked string) {
 // the property on the implementation: the parallel run returns what the sequential run returns
 // (same error flag; observables within the reassociation tolerance)
 func (c *Config) oracle(pc PoolCfg, deadline time.Duration) string {
+	if c.Site == "errflow" {
+		ch := make(chan string, 1)
+		go func() { ch <- errFlowOracle(c.ErrFlow, pc) }()
+		select {
+		case m := <-ch:
+			return m
+		case <-time.After(deadline):
+			return fmt.Sprintf("deadline of %v exceeded (deadlock in Wait?)", deadline)
+		}
+	}
 	ref, rerr, rpn := c.run(PoolCfg{K: 1})
 	type res struct {
 		obs []float64
@@ -144,6 +162,12 @@ func (c *Config) oracle(pc PoolCfg, deadline time.Duration) string {
 }
 
 func genConfig(r *Rng) *Config {
+	if r.Intn(4) == 0 {
+		// error propagation: a failing component on the kinds whose error path is clean on the unchanged tree
+		// (the known losses numeric / shapehmm-logpdf / logt are demonstrated by --extra errflow)
+		c := genErrFlow(r, r.Intn(nErrFlowClean))
+		return &Config{Site: "errflow", ErrFlow: c}
+	}
 	switch r.Intn(11) {
 	case 9, 10:
 		return &Config{Site: "comp", Comp: genComp(r)}
@@ -314,6 +338,8 @@ func fromRaw(rc *RawCase) *Config {
 		return &Config{Site: "numeric", Num: rc.Num}
 	case rc.Comp != nil:
 		return &Config{Site: "comp", Comp: rc.Comp}
+	case rc.ErrFlow != nil:
+		return &Config{Site: "errflow", ErrFlow: rc.ErrFlow}
 	}
 	return nil
 }
@@ -429,7 +455,10 @@ func replayMain(o Opts) {
 	g.sw = NewCaseWriter(o.Out, "sreplay", oheader, "sagamism", 200)
 	g.sw.Type = "sagacase"
 	g.noTransPanics, _ = bwNoTransPanics()
-	rc := RawCase{Em: c.Em, Bw: c.Bw, Nm: c.Nm, X: c.X, Full: c.Full, Saga: c.Saga, Num: c.Num, Comp: c.Comp}
+	rc := RawCase{Em: c.Em, Bw: c.Bw, Nm: c.Nm, X: c.X, Full: c.Full, Saga: c.Saga, Num: c.Num, Comp: c.Comp, ErrFlow: c.ErrFlow}
+	g.ew = NewCaseWriter(o.Out, "ereplay", eheader, "emism", 60)
+	g.ew.Type = "ecase"
+	defer g.ew.Flush()
 	g.replayInto(&rc)
 	w.Flush()
 	g.ow.Flush()
